@@ -72,6 +72,9 @@ def extra_judge(node, o, r, lines, newm, rc):
         return (('decode', o['op'], newm.mode), 'file does not decode after %s: %s' % (o['op'], e))
     v = fileck.check_logical(newm, f, check_data=False)
     if v: return (('header_on_disk', o['op'], v[0][0]), 'after %s returned, the file header says: %s' % (o['op'], v[0][1]))
+    if s1 is not None:
+        lo, _ = fileck.check_layout(f, r.r(0, s1).json())
+        if lo: return (('header_layout', o['op'], lo[0][0]), 'after %s: %s' % (o['op'], lo[0][1]))
     return None
 
 
